@@ -1,4 +1,5 @@
 import Qryn.Proofs.LogQLMetric
+import Qryn.Proofs.MetricUnwrap
 /-! # C08 — the SQL generated for LogQL metric queries computes the defined aggregates
 
 Model: `LogQL.planMetric` (tied byte-for-byte to the real planner's SQL text by the `text` stream, its step
@@ -310,6 +311,148 @@ theorem gen_agg_ops : aggOpsModel = Gen.LogQLOps.aggOps := aggOps_eq
 theorem gen_shortcut_ops : shortcutOpsModel = Gen.LogQLOps.shortcutOps := shortcutOps_eq
 theorem gen_cmp_ops : cmpOpsModel = Gen.LogQLOps.cmpOps := cmpOps_eq
 
+/-! ## the whole plan -/
+
+/-- **plan_metric_correct, class `rangeFn({selector} [d]) [cmp]`** — rate, count_over_time, bytes_rate,
+    bytes_over_time over a selector of the C07 fragment, samples path (the metrics_15s shortcut not taken),
+    step ≤ range. For every context, every database and every such query, evaluating the generated statement
+    (`fp_sel` chain, `agg_a`, the LRA select with its optional HAVING, the labels join, the final ORDER BY) and reading
+    the value column as a number gives exactly the matrix of the direct reading: one point per (selected stream,
+    range bucket containing a matching entry of `[from, to)`), valued by the range function over exactly those
+    entries, filtered by the comparison, labelled with the stream's labels, ordered by (fingerprint, timestamp). -/
+theorem plan_metric_correct_range (o : Oracles) (c : MCtx) (hn : c.namesOk) (d : LokiDb) (r : RangeAgg) (fn : RangeFn)
+    (hk : r.kind = .lra fn) (hm : r.sel.matchers.length ≤ 63) (hms : 1000000 ∣ r.durNs) (hd : 0 < r.durNs)
+    (hs : takesShortcut (.range r) = false) (hstep : c.stepNs ≤ (r.durNs : Int)) :
+    (evalSelA o (d.toDbM c) (planMetric c (.range r))).map normRow = evalMetric o c d (.range r) :=
+  planMetric_range_lra o c hn d r fn hk hm hms hd hs hstep
+
+/-- **plan_metric_correct, class `aggOp by/without (…) (rangeFn({selector} [d]) [cmp]) [cmp]`** — sum, min, max, avg,
+    count with a grouping clause (prefix or suffix position) over a range aggregation of the class above. The
+    statement additionally contains `pre_without_<id>` (the range stage), `labels_<id>` (every admissible series row
+    with the labels the grouping keeps and cityHash64 of exactly those) and `lra_main`; its rows are exactly the
+    direct reading's: every range point moved to the series of its kept label set, the points of one (series,
+    timestamp) aggregated by the written operator, both comparisons applied where written. -/
+theorem plan_metric_correct_agg (o : Oracles) (c : MCtx) (hn : c.namesOk) (d : LokiDb) (a : VecAgg) (fn : RangeFn)
+    (g : Grouping) (hk : a.inner.kind = .lra fn) (hg : chosenGrouping a.byPrefix a.bySuffix = some g)
+    (hfn : a.fn ≠ .stddev ∧ a.fn ≠ .stdvar)
+    (hm : a.inner.sel.matchers.length ≤ 63) (hms : 1000000 ∣ a.inner.durNs) (hd : 0 < a.inner.durNs)
+    (hs : takesShortcut (.agg a) = false) (hstep : c.stepNs ≤ (a.inner.durNs : Int)) :
+    (evalSelA o (d.toDbM c) (planMetric c (.agg a))).map normRow = evalMetric o c d (.agg a) :=
+  planMetric_agg_lra o c hn d a fn g hk hg hfn hm hms hd hs hstep
+
+/-- **plan_metric_correct on the samples path, every query shape.** `q` is any metric query whose range aggregation is
+    rate / count_over_time / bytes_rate / bytes_over_time and does not take the metrics_15s shortcut: the range
+    aggregation alone, under sum/min/max/avg/count with a grouping clause, under topk/bottomk (of either), with a
+    comparison after any of them; the step may be smaller or larger than the range (`StepFixPlanner` planned or not).
+    Hypotheses: at most 63 matchers, the range a positive whole number of milliseconds, a vector aggregation has a
+    grouping clause (`aggOk`; without one the plan keeps one series per stream — finding
+    C08/agg-without-grouping-keeps-streams) and is not stddev/stdvar. Then the generated statement, under the
+    documented SQL semantics, returns exactly the matrix of the direct reading. -/
+theorem plan_metric_correct_samples_path (o : Oracles) (c : MCtx) (hn : c.namesOk) (d : LokiDb) (q : MetricQuery) (fn : RangeFn)
+    (hk : q.rangeAgg.kind = .lra fn) (hs : takesShortcut q = false) (hok : aggOk q)
+    (hm : q.rangeAgg.sel.matchers.length ≤ 63) (hms : 1000000 ∣ q.rangeAgg.durNs) (hd : 0 < q.rangeAgg.durNs) :
+    (evalSelA o (d.toDbM c) (planMetric c q)).map normRow = evalMetric o c d q :=
+  planMetric_lra o c hn d q fn hk hs hok hm hms hd
+
+/-- **plan_metric_correct on the metrics_15s path, every query shape.** `q` takes the shortcut (`shortcut_iff`: rate or
+    count_over_time, range a multiple of 15 s, only line filters that pass every line). Hypotheses besides those of the
+    samples path: timestamps are not negative, and the skipped line filters do pass every stored line (for the empty
+    needle this is `shortcut_skips_only_passing_filters`). The statement reads `metrics_15s` (by definition the
+    materialized view of `samples`: one row per stream, 15 s slot and type with the number of entries) and returns
+    exactly the matrix of the direct reading over the entries of the window rounded down to whole slots. -/
+theorem plan_metric_correct_shortcut (o : Oracles) (c : MCtx) (hn : c.namesOk) (d : LokiDb) (q : MetricQuery)
+    (hs : takesShortcut q = true) (hok : aggOk q)
+    (hm : q.rangeAgg.sel.matchers.length ≤ 63) (hms : 1000000 ∣ q.rangeAgg.durNs)
+    (hts : ∀ s ∈ d.samples, 0 ≤ s.ts)
+    (htriv : ∀ s ∈ d.samples, (lineFilters q.rangeAgg.sel).all (fun f => lineHolds o f s.str) = true) :
+    (evalSelA o (d.toDbM c) (planMetric c q)).map normRow = evalMetric o c d q :=
+  planMetric_shortcut o c hn d q hs hok hm hms hts htriv
+
+/-- `plan()` is the composition of its phases, `planPhases (takesShortcut q) c q`: `planPhases true` is the plan of
+    `planMetrics15Shortcut`, `planPhases false` the plan of the matrix functions in `getFunctionOrder`. -/
+theorem plan_is_phases (c : MCtx) (q : MetricQuery) : planMetric c q = planPhases (takesShortcut q) c q :=
+  planMetric_phases c q
+
+/-- **every pipeline stage written in the query takes effect whatever the range duration: the shortcut drops none.**
+    For a query that takes the shortcut and a window of whole 15 s slots (`FixPeriodPlanner` hands down whole range
+    buckets and the range is a multiple of 15 s), the shortcut's statement and the statement the matrix functions
+    would build for the same query (reading `samples`, every stage planned) return the same matrix. -/
+theorem shortcut_equals_function_plan (o : Oracles) (c : MCtx) (hn : c.namesOk) (d : LokiDb) (q : MetricQuery)
+    (hs : takesShortcut q = true) (hok : aggOk q)
+    (hm : q.rangeAgg.sel.matchers.length ≤ 63) (hms : 1000000 ∣ q.rangeAgg.durNs)
+    (hts : ∀ s ∈ d.samples, 0 ≤ s.ts)
+    (htriv : ∀ s ∈ d.samples, (lineFilters q.rangeAgg.sel).all (fun f => lineHolds o f s.str) = true)
+    (hfrom : Int.tdiv c.fromNs slot15 * slot15 = c.fromNs) (hto : Int.tdiv c.toNs slot15 * slot15 = c.toNs) :
+    (evalSelA o (d.toDbM c) (planPhases true c q)).map normRow =
+      (evalSelA o (d.toDbM c) (planPhases false c q)).map normRow :=
+  shortcut_plan_eq_function_plan o c hn d q hs hok hm hms hts htriv hfrom hto
+
+/-- **plan_metric_correct** (the union of the classes above, over the decidable predicate `supported`). For every
+    supported metric query — range aggregation rate / count_over_time / bytes_rate / bytes_over_time over a selector of
+    the C07 fragment with a range that is a positive whole number of milliseconds and at most 63 matchers; alone, under
+    sum/min/max/avg/count `by`/`without`, under topk/bottomk, comparisons anywhere — every context (window, step <, =,
+    > range, signal type, table names) and every database:
+    `evalSelA (planMetric c q)`, value column read as a number, `=` `evalMetric c q`.
+    On the metrics_15s path (`takesShortcut q`) additionally `ShortcutOk`: no negative timestamp and the unplanned
+    (empty-needle) line filters pass every stored line. What is proved is the equality of the *model* plan (tied to the
+    real planner's SQL text byte for byte on every run) under the documented SQL semantics `Sql.SemAgg` with the
+    direct reading; `argMin`/`any`/ORDER BY ties are resolved in evaluation order on both sides (ClickHouse leaves them
+    open); a stream without admissible series row gets `null` labels on both sides. -/
+theorem plan_metric_correct (o : Oracles) (c : MCtx) (hn : c.namesOk) (d : LokiDb) (q : MetricQuery)
+    (hsup : supported q = true) (hsc : takesShortcut q = true → ShortcutOk o d q) :
+    (evalSelA o (d.toDbM c) (planMetric c q)).map normRow = evalMetric o c d q :=
+  planMetric_correct o c hn d q hsup hsc
+
+/-- **plan_metric_correct for unwrapped range aggregations** (`supportedU`: rate, sum/avg/min/max/first/last_over_time
+    over `| unwrap <label>` or `| unwrap _entry`, with or without a grouping clause on the range aggregation; alone,
+    under a grouped vector aggregation, under topk/bottomk, comparisons anywhere, any step). The plan orders `main` by
+    timestamp before `LabelsJoinPlanner`, `UnwrapPlanner`, `ByWithoutPlanner.processSimple` and `UnwrapFunctionPlanner`
+    group it; so what the statement returns is the matrix of the direct reading over the entries **taken in timestamp
+    order** (`sortedDb`: the same database with `samples` read in timestamp order): the series, buckets and values of
+    sum/avg/min/max/rate do not depend on that order, first/last_over_time among entries of equal timestamp and the
+    order of first occurrence of the series do. -/
+theorem plan_metric_correct_unwrap (o : Oracles) (c : MCtx) (hn : c.namesOk) (d : LokiDb) (q : MetricQuery)
+    (hsup : supportedU q = true) :
+    (evalSelA o (d.toDbM c) (planMetric c q)).map normRow = evalMetric o c (sortedDb c.toCtx d) q :=
+  planMetric_unwrap_supported o c hn d q hsup
+
+/-- …and when the table is stored in that order, of the direct reading itself -/
+theorem plan_metric_correct_unwrap_sorted (o : Oracles) (c : MCtx) (hn : c.namesOk) (d : LokiDb) (q : MetricQuery)
+    (hsup : supportedU q = true) (hsorted : sortBy (tsLe c.toCtx) d.samples = d.samples) :
+    (evalSelA o (d.toDbM c) (planMetric c q)).map normRow = evalMetric o c d q := by
+  rw [planMetric_unwrap_supported o c hn d q hsup, sortedDb_of_sorted c.toCtx d hsorted]
+
+/-- the full statement of the property for *every* query of the modelled fragment and every table order (also
+    vector aggregations without grouping clause, and unwrapped range aggregations over a table that is not stored in
+    timestamp order). Not proved: `vector_agg_ungrouped_counterexample` refutes it for ungrouped aggregations (finding
+    C08/agg-without-grouping-keeps-streams); for unwrap it holds only after the final ORDER BY and for pairwise distinct
+    timestamps — `plan_metric_correct_unwrap` is the proved form, the `sem` stream searches this one. -/
+def plan_metric_correct_full : Prop :=
+  ∀ (o : Oracles) (c : MCtx) (d : LokiDb) (q : MetricQuery), c.namesOk → q.rangeAgg.sel.matchers.length ≤ 63 →
+    1000000 ∣ q.rangeAgg.durNs → 0 < q.rangeAgg.durNs → ShortcutOk o d q →
+    (evalSelA o (d.toDbM c) (planMetric c q)).map normRow = evalMetric o c d q
+
+/-- **no entry outside the window (widened at most to whole range buckets) contributes.** Changing, adding or removing
+    entries outside the window the plan reads — `[from, to)` of the planner context, which `FixPeriodPlanner` sets to whole
+    range buckets (`window_widened_to_whole_buckets`); rounded down to whole 15 s slots on the metrics_15s path — does
+    not change a single row of the result. -/
+theorem no_entry_outside_window_contributes (o : Oracles) (c : MCtx) (hn : c.namesOk) (d d' : LokiDb) (q : MetricQuery)
+    (hsup : supported q = true) (hsc : takesShortcut q = true → ShortcutOk o d q ∧ ShortcutOk o d' q)
+    (h : SameInside d d' (effWindow c q).1 (effWindow c q).2) :
+    (evalSelA o (d.toDbM c) (planMetric c q)).map normRow = (evalSelA o (d'.toDbM c) (planMetric c q)).map normRow :=
+  outside_window_irrelevant o c hn d d' q hsup hsc h
+
+/-- **output series are identified by exactly the grouped label set** (plan level). Every row the statement returns for
+    `aggOp by/without g (…)` (also under topk/bottomk, comparisons, step re-bucketing) has as labels exactly what `g`
+    keeps of a label set and as fingerprint cityHash64 of exactly those labels (both `null` for a stream without series
+    row). -/
+theorem output_series_identified_by_grouped_labels_plan (o : Oracles) (c : MCtx) (hn : c.namesOk) (d : LokiDb)
+    (q : MetricQuery) (a : VecAgg) (g : Grouping) (hsup : supported q = true)
+    (hsc : takesShortcut q = true → ShortcutOk o d q)
+    (ha : q.agg? = some a) (hg : chosenGrouping a.byPrefix a.bySuffix = some g) :
+    ∀ r ∈ evalSelA o (d.toDbM c) (planMetric c q), GroupedKL o g (r.get "fingerprint") (r.get "labels") :=
+  output_series_grouped o c hn d q a g hsup hsc ha hg
+
 /-! ## non-vacuity -/
 example : LraRows [[("_string", .str [97, 98])]] [⟨1, 5, [97, 98], 1⟩] := by unfold LraRows; decide
 example : UnwrapRows [[("unwrap_1.value", .rat 2), ("unwrap_1.timestamp_ns", .int 7)]] [(7, 2)] := by unfold UnwrapRows; decide +kernel
@@ -318,5 +461,19 @@ example : (1000000 : Nat) ∣ 5000000000 := by decide
 example : takesShortcut (.range ⟨.lra .rate, ⟨[], []⟩, 60000000000, none, none, none⟩) = true := by decide
 example : takesShortcut (.range ⟨.lra .rate, ⟨[], []⟩, 20000000000, none, none, none⟩) = false := by decide
 example : takesShortcut (.range ⟨.lra .rate, ⟨[], [.line ⟨.notContains, [], none⟩]⟩, 60000000000, none, none, none⟩) = false := by decide
+
+-- the plan-level class is inhabited: sum by (a) (rate({…}[1m])) > 1 under topk, shortcut and not
+example : supported (.topk ⟨true, 2, .agg ⟨.sum, some ⟨true, ["a"]⟩, ⟨.lra .rate, ⟨[], []⟩, 60000000000, none, none, none⟩, none,
+    some ⟨.gt, ⟨1, []⟩⟩⟩, none⟩) = true := by decide
+example : supported (.agg ⟨.count, none, ⟨.lra .bytesOverTime, ⟨[], []⟩, 7000000000, none, none, none⟩, some ⟨false, ["x"]⟩, none⟩) = true := by decide
+example : supported (.agg ⟨.sum, none, ⟨.lra .rate, ⟨[], []⟩, 5000000000, none, none, none⟩, none, none⟩) = false := by decide
+example : supportedU (.agg ⟨.max, some ⟨true, ["a"]⟩, ⟨.unwrap .firstOT "x", ⟨[], []⟩, 10000000000, none, some ⟨false, ["b"]⟩, none⟩, none, none⟩) = true := by decide
+example : supportedU (.range ⟨.unwrap .stddevOT "x", ⟨[], []⟩, 10000000000, none, none, none⟩) = false := by decide
+example (c : Ctx) : sortBy (tsLe c) ([] : List Sample) = [] := rfl
+example (o : Oracles) (q : MetricQuery) : ShortcutOk o ⟨[], [], []⟩ q := ⟨by simp, by simp⟩
+example (lo hi : Int) : SameInside ⟨[], [], [⟨1, lo - 1, [], 1⟩]⟩ ⟨[], [], []⟩ lo hi := by
+  refine ⟨rfl, rfl, ?_⟩
+  simp
+  omega
 
 end Qryn.C08
